@@ -15,7 +15,7 @@ EXPLANATION = (
     "per-tomogram dimensions and z-shift by tomo_id == t for the tomogram being processed; the EM list pairs min/max with "
     "min_angle/max_angle. mdoc: the write filter is the truth table (written iff removed-requested or not flagged), "
     "writer format characters agree with the reader's split/strip characters, sort_by_tilt only sorts, removal goes from "
-    "positions among kept images to index labels exactly once (label/position typing).")
+    "positions among kept images to index labels exactly once (label/position typing). defocus_load of an N x 5 array names the columns in the given order and keeps the rows as given for every N (no orientation guessed from the shape).")
 ASSUMPTIONS = TRUSTED + ["the mdoc grammar round trip over generated texts (value formatting, section splitting) is not decided"]
 
 IO = "ioutils."
